@@ -21,7 +21,12 @@ let show_conn (s : sys) idx (k : lc) =
 let show status obs (s : sys) =
   let es = List.map show_obs obs in
   let cs = List.mapi (fun idx k -> show_conn s idx k) s.s_conns in
-  let qs = List.map (fun l -> Printf.sprintf "%d/%d/%d" (List.length l.q_pend) (List.length l.q_batch) (List.length l.q_spent)) s.s_loops in
+  (* per loop: pending/batch/spent, 'd' = inside a drain (callingPendingFunctors_), 'q' = quit_ stored by the pool's tear-down;
+     "gone" = the io loop has left loop() and its EventLoop is destroyed *)
+  let qs = List.mapi (fun i l ->
+    if gone s (nat_of_int i) then "gone" else
+    Printf.sprintf "%d/%d/%d%s%s" (List.length l.q_pend) (List.length l.q_batch) (List.length l.q_spent)
+      (if l.q_drain then "d" else "") (if quitting s (nat_of_int i) then "q" else "")) s.s_loops in
   let mapped = List.length (List.filter (fun k -> k.k_mapped && k.k_ccb = CbServer) s.s_conns) in
   Printf.printf "%s ev=%s | %s | q=%s srv=%d:%d cli=%d:%s\n" status
     (if es = [] then "-" else String.concat "," es)
